@@ -770,16 +770,15 @@ def readE : PE → Option JsExpr
   | .str v => some (.str v)
   | .ident g => if g == sOptData then none else if g == sOptIj then some .ijData else some (.local g)
   | .member x k =>
-    -- `opt_data.k`; `(x).length` (the `length` function, soyjs 0a4b4eb) and `x.length`; `x.k`
+    -- `opt_data.k`; `(x).length`: the `length` function (soyjs 0a4b4eb always parenthesises its argument); `x.k` — also
+    -- `x.length` with `x` not in parentheses: the data key `length`
     if isOptData x then some (.optData k)
-    else if k == sLength then
-      (match x with
-        | .paren y => (match readE y with | some jy => some (.call1 .length jy) | none => none)
-        | y => (match readE y with | some jy => some (.call1 .length jy) | none => none))
     else
-      (match readE x with
-        | some jx => some (.member jx k)
-        | none => none)
+      (match x with
+        | .paren y =>
+          if k == sLength then (match readE y with | some jy => some (.call1 .length jy) | none => none)
+          else (match readE (.paren y) with | some jx => some (.member jx k) | none => none)
+        | x => (match readE x with | some jx => some (.member jx k) | none => none))
   | .index x (.num i) => (match readE x with | some jx => some (.index jx (i : Int)) | none => none)
   | .call (.member (.ident m) f) (.cons a .nil) =>
     -- `Math.floor(a)`
